@@ -8,6 +8,8 @@
 # Exit 0 with `equivalent-since:<sha>` in the key column: the seed's meta.json carries `equivalent_since`
 # - a later fix in /repo made the seeded change behaviour-preserving (its own demo passes with the
 # patch applied); it was caught before that commit (see the property's RESULTS.md). Not a miss.
+# Exit 0 with `other-property:<ID>`: the seeded change breaks a clause that belongs to another property's
+# statement (meta.json `caught_by_property`); that property's check catches it.
 set -u
 VROOT=$(cd "$(dirname "$0")/.." && pwd)
 cd "$VROOT"
@@ -27,6 +29,8 @@ for ID in $SEL; do
     if [ "$RC" = 0 ] && [ -f "$D/meta.json" ]; then
       EQ=$(sed -n 's/.*"equivalent_since": *"\([^"]*\)".*/\1/p' "$D/meta.json" | head -1)
       [ -n "$EQ" ] && KEY="equivalent-since:$EQ"
+      OP=$(sed -n 's/.*"caught_by_property": *"\([^"]*\)".*/\1/p' "$D/meta.json" | head -1)
+      [ -n "$OP" ] && KEY="other-property:$OP"
     fi
     printf '%s\t%s\t%s\t%s\n' "$(basename "$D")" "$RC" "$N" "$KEY" >>"$TMP"
     printf '%s\t%s\t%s\t%s\n' "$(basename "$D")" "$RC" "$N" "$KEY"
